@@ -463,15 +463,31 @@ def single_line_probe(ctx, rid, core):
         if not calls:
             continue
         lets = [(s_["pat"]["name"], s_["init"]) for s_ in H.walk(f["body"]) if isinstance(s_, dict) and s_.get("k") == "Let" and H.kind(s_.get("pat")) == "Bind" and s_.get("init") is not None]
-        probes = {nm for nm, init in lets if any(any(y is c_ for y in H.walk(init)) for c_ in calls)}
+        lets_all = [(s_["pat"]["name"], s_["init"], (s_["pat"].get("ty") or "")) for s_ in H.walk(f["body"]) if isinstance(s_, dict) and s_.get("k") == "Let" and H.kind(s_.get("pat")) == "Bind" and s_.get("init") is not None]
+        is_text = lambda ty_: ty_.lstrip("&") in ("alloc::string::String", "str")
+        probes = {nm for nm, init, ty_ in lets_all if is_text(ty_) and any(any(y is c_ for y in H.walk(init)) for c_ in calls)}
         for _ in range(3):
-            probes |= {nm for nm, init in lets if any(H.path_local(y) in probes for y in H.walk(init) if H.kind(y) == "Path")}
+            probes |= {nm for nm, init, ty_ in lets_all if is_text(ty_) and any(H.path_local(y) in probes for y in H.walk(init) if H.kind(y) == "Path")}
+        # booleans computed from a line-break test of a probe (`let is_one_line = !single.contains('\n');`) stand for that test
+        def nl_test_of(e_):
+            return {H.path_local(H.strip(y["recv"])) for y in H.walk(e_) if H.kind(y) == "MethodCall" and y["name"] == "contains" and y.get("args") and H.lit(y["args"][0]) is not None and "\n" in str(H.lit(y["args"][0])["v"])}
+        testers = {nm: nl_test_of(init) & probes for nm, init, ty_ in lets_all if ty_ == "bool" and nl_test_of(init) & probes}
+        for _ in range(2):
+            for nm, init, ty_ in lets_all:
+                if ty_ == "bool" and nm not in testers:
+                    via = set().union(*[testers[H.path_local(y)] for y in H.walk(init) if H.kind(y) == "Path" and H.path_local(y) in testers] or [set()])
+                    # a conjunction with a tester is still at least that test
+                    if via and not any(H.kind(y) == "Binary" and y.get("op") == "Or" for y in H.walk(init)):
+                        testers[nm] = via
         unbound = [H.loc(c_) for c_ in calls if not any(any(y is c_ for y in H.walk(init)) for _, init in lets)]
         # every use of a probe local sits in an `if` whose condition tests that local for a line break
         guarded_nodes = set()
         for x in H.walk(f["body"]):
             if H.kind(x) == "If":
-                tested = {H.path_local(H.strip(y["recv"])) for y in H.walk(x["cond"]) if H.kind(y) == "MethodCall" and y["name"] == "contains" and y.get("args") and H.lit(y["args"][0]) is not None and "\n" in str(H.lit(y["args"][0])["v"])}
+                tested = nl_test_of(x["cond"]) | set().union(*[testers[H.path_local(y)] for y in H.walk(x["cond"]) if H.kind(y) == "Path" and H.path_local(y) in testers] or [set()])
+                # a disjunction can be true without the line-break test: `matches!(..DoBlock..) || (!s.contains('\n') && fits)` is not a guard
+                if any(H.kind(y) == "Binary" and y.get("op") == "Or" for y in H.walk(x["cond"])):
+                    tested = set()
                 if tested & probes:
                     for y in H.walk(x["cond"]):
                         guarded_nodes.add(id(y))
